@@ -221,6 +221,32 @@ for _pid, _extra in ROUND7.items():
     CHECKS[_pid]["text"] = CHECKS[_pid]["text"].rstrip() + _extra
 
 
+# Families added for round 8 (objects moving between threads, marathons, data values, caller code that
+# misbehaves in allowed ways, environment): appended to the texts above.
+ROUND8 = {
+    "C01": " (FE FD)^n for n around 2^8 and 2^16 (that many chunks closed by one encoder); pipelined read-ahead (the read for piece i+1 issued before the drain after piece i) under the round-trip focus on both sides; one codec whose calls come from two threads in turn; a reader that panics once inside encode_read / decode_read (caught), then a retry.",
+    "C02": " Dense-chunk inputs (FE FD)^n for n around 2^8 and 2^16; one encoder fed from two threads in turn; a caught reader panic followed by a retry.",
+    "C03": " Every second op applied on a freshly spawned helper thread (the objects are Send) to depth 3 / 4 (alphabet A) and 4 / 5 (reduced alphabet); marathons of 70 000 repetitions of every cycle of up to 2 ops over 7 ops; payloads that are runs of 0xFC (the arena's own poison value), 0x00 and 0xFF; a rare-entry-point alphabet (provided Read methods, extend with an iterator that panics midway) to depth 5 / 6 and in cycles. Runaway executions are bounded: the address space of every worker is capped and a watchdog ends an execution that does not finish within two minutes; both deaths are replayed in a fresh child and become the verdict.",
+    "C04": " Backfills whose bytes equal the placeholder's own pattern; eight violations per worker end its share (a violating execution can be very slow).",
+    "C05": " Every second op on a helper thread (alphabet C to depth 3 / 4, extended anchored alphabet to 4 / 5); marathons of 70 000 repetitions over 7 anchored-memory ops; extend with an iterator that panics midway.",
+    "C07": " Dense-chunk inputs; one codec used from two threads in turn; a caught reader panic followed by a retry.",
+    "C08": " A transient end of file (the reader answers Ok(0) once at every call index, data later) for streams up to length 5: the tiling goes on after the Eof it justifies.",
+    "C09": " Dense-chunk inputs in copied 4096-byte calls drained after each; twin codecs, calls from two threads, a caught reader panic followed by a retry.",
+    "C10": " Leak accounting with every second op on a helper thread (alphabet C to depth 3 / 4).",
+    "C11": " Value CONTENTS: values of 7 .. 200 bytes made of zeros / 0xFF with and without a non-zero first byte, last byte or last (n mod 8) bytes, 4 leaf kinds, 3 constructors, 2 sinks.",
+    "C13": " A violation that neither a second run in the process nor the history alone in a fresh process shows is confirmed as the pair (history the worker ran just before, this history) in a fresh process: instances that no longer exist can leave traces in a static or a thread-local.",
+    "C14": " Calendar landmarks as bases and as local times: the seconds around two leap-second insertions, leap days, 2100-02-28/03-01, month and year ends, the 2^31-second rollover.",
+    "C15": " Marathons: every cycle of up to 2 / 3 ops repeated 70 000 times on one deque (from empty and from 3 and 6 items), oracle after every op.",
+    "C16": " Marathons: every cycle of up to 2 ops over 9 ops repeated 70 000 times.",
+    "C17": " A second encode_read / decode_read on the same codec after the first one ended in end of file, an error or a short read (the reader now has data: it must be called and its bytes used); mid-size counts 65 .. 300 x 5 scripts x 5 arena states, the arena letting go of its chunk right after the read and the encoder copying 14 000 more bytes before the output is compared.",
+    "C18": " Base times at the top of the u64 range (far beyond year 9999) and an observer thread that has just read another, more advanced AtomicBaseTime, against one suspended writer at every step; threads that never finish after the teardown are abandoned instead of joined (a spinning observer is the violation, not a reason to hang).",
+    "C19": " The trusted path registered by a relative name followed by a change of current directory to the other device, where the same name designates a newer file (all sequences to depth 2 / 3 after it); every file's modification time is set explicitly, hours ahead of or decades behind its change-time.",
+    "C20": " Payload values include runs of 0xFC, 0x00 and 0xFF from the first pushes of a history on.",
+}
+for _pid, _extra in ROUND8.items():
+    CHECKS[_pid]["text"] = CHECKS[_pid]["text"].rstrip() + _extra
+
+
 def main():
     checks = []
     for pid in ALL:
